@@ -34,7 +34,49 @@ def signature(kind, small, detail):
 
 NAV = ["ZoomIn", "ZoomOut", "MoveNext", "MovePrevious", "ZoomInAll", "ZoomOutAll", "MoveStart", "MoveEnd", "MoveLineStart", "MoveCellNext", "MoveCellDown", "MoveCellUp",
        "ReadNext", "DescribeCurrent", "WhereAmI", "MoveLastLocation", "SetPlacemarker1", "MoveTo1"]
-MARK = re.compile(r"""<(?:mark name|bookmark mark)=['"]([^'"]*)['"]""")
+MARK = re.compile(r"""<(?:mark name|bookmark mark)=(?:'([^']*)'|"([^"]*)")""")
+
+
+def marks_of(speech):
+    """ids named by the bookmarks of an SSML / SAPI5 string, as an XML parser reads them"""
+    import html
+    return [html.unescape(a or b) for a, b in MARK.findall(speech)]
+
+
+# tokens that canonicalization splits, merges or re-types (geometry point names, chemical formulas, function names run together with their
+# argument, numbers with units, roman numerals, primes), in the contexts that trigger it; every element gets a distinct author id
+SPLIT_TEXTS = ["AB", "ABC", "PQRS", "NaCl", "CO", "HCl", "sinx", "dx", "XIV", "12cm", "3x", "f'", "x''", "lim", "arcsin", "a b", "1,234", "2.5"]
+SPLIT_PREFIX = ["\u2220", "\u25B3", "\u2221", "\u22A5", "\u2225", "\u25B1", "\u2312", "\u223C", "-", "\u2202", "d"]
+SPLIT_OVER = ["\u00AF", "\u2192", "\u2194", "\u2322", "^", "~", "\u20D7", "\u2312", "_", "\u23DE"]
+
+
+def split_idioms(rng, n):
+    out = []
+    for _ in range(n):
+        tag = rng.choice(["mi", "mi", "mtext", "mn"])
+        tok = gen.N(tag, text=rng.choice(SPLIT_TEXTS))
+        k = rng.random()
+        if k < 0.35:
+            body = [gen.mo(rng.choice(SPLIT_PREFIX)), tok]
+            if rng.random() < 0.5:
+                body += [gen.mo("="), gen.mn(str(rng.randint(2, 99)))]
+            tree = gen.math(gen.mrow(*body) if rng.random() < 0.5 else gen.N("mstyle", body))
+        elif k < 0.65:
+            m = gen.N(rng.choice(["mover", "munder"]), [tok, gen.mo(rng.choice(SPLIT_OVER))])
+            tree = gen.math(m, gen.mo(rng.choice(["\u2225", "\u22A5", "=", "\u2245"])), gen.N("mover", [gen.N(tag, text=rng.choice(SPLIT_TEXTS)), gen.mo(rng.choice(SPLIT_OVER))]))
+        elif k < 0.8:
+            tree = gen.math(gen.N(rng.choice(["msub", "msup"]), [tok, gen.mn(str(rng.randint(2, 9)))]), gen.mo("+"), gen.N(tag, text=rng.choice(SPLIT_TEXTS)))
+        else:
+            tree = gen.math(gen.N("mfrac", [gen.mrow(gen.mo(rng.choice(SPLIT_PREFIX)), tok), gen.N(tag, text=rng.choice(SPLIT_TEXTS))]))
+        c = 0
+        for node, _ in tree.walk():
+            if rng.random() < 0.8:
+                c += 1
+                node.attrs["id"] = "s%d" % c
+        out.append(tree.xml())
+    return out
+
+
 NAV_MODES = ["Enhanced", "Simple", "Character"]
 
 
@@ -57,10 +99,13 @@ def handout_phase(spec):
         tree = tb.expression()[0]
         if rng.random() < 0.5:
             k = 0
+            special = rng.random() < 0.5
             for n, _ in tree.walk():
                 if rng.random() < 0.5:
                     k += 1
                     n.attrs["id"] = "au%d" % k
+                    if special and rng.random() < 0.4:
+                        n.attrs["id"] = rng.choice(["x'%d", 'q"%d', "l<%d", "g>%d", "a&%d", "s p%d", "é%d", "x'\"<&>%d"]) % k
         steps = []
         for _ in range(rng.randint(2, 14)):
             k = rng.random()
@@ -114,7 +159,7 @@ def handout_phase(spec):
             st.evaluations += 1
             bad = None
             if res[0]["r"] == "ok":
-                marks = MARK.findall(res[0]["v"])
+                marks = marks_of(res[0]["v"])
                 st.count("bookmark_ids_checked", len(marks))
                 for m in marks:
                     if m not in ids:
@@ -137,8 +182,9 @@ def handout_phase(spec):
                 if op[0] == "get_navigation_mathml" and r["r"] == "ok":
                     m = re.search(r"""\sid=['"]([^'"]*)['"]""", r["v"][0])
                     if m:
+                        import html
                         st.count("navigation_mathml_roots_checked")
-                        if m.group(1) not in ids:
+                        if html.unescape(m.group(1)) not in ids:
                             bad = ("navigation-mathml-id-unknown", "get_navigation_mathml returned a tree whose root id %r is not in the returned MathML, after %s" % (m.group(1), str(last)[:120]))
             if bad:
                 st.violations.append(core.violation(bad[0], bad[0], case, bad[1] + " | " + case["mathml"][:300]))
@@ -219,7 +265,11 @@ def replay(witness):
 def run(tier, seed):
     t0 = time.time()
     core.build_driver("native")
-    specs = canon_run.make_specs(PROP, tier, seed, n_quick=40000, n_thorough=1000000, id_policies=["some", "all", "duplicate", "some", "none"], textbook_frac=0.25)
+    specs = canon_run.make_specs(PROP, tier, seed, n_quick=40000, n_thorough=1000000, id_policies=["some", "all", "duplicate", "some+", "all+", "none"], textbook_frac=0.25)
+    rng_i = random.Random(core.sub_seed(seed, PROP, "idioms"))
+    idioms = split_idioms(rng_i, 1500 if tier == "quick" else 40000)
+    for i, sp in enumerate(specs):
+        sp["fixed_xml"] = list(sp["fixed_xml"]) + idioms[i::len(specs)]
     results = core.run_shards(canon_run.shard, specs)
     h_specs = [{"seed": core.sub_seed(seed, PROP, "handout", i), "n": 40 if tier == "quick" else 2000, "time_budget": 40 if tier == "quick" else 600} for i in range(core.NPROC)]
     results += core.run_shards(handout_phase, h_specs)
@@ -233,7 +283,8 @@ def run(tier, seed):
         ["duplicate author ids are the author's responsibility (uniqueness is demanded only when the author's ids were distinct)",
          "a token merged into a neighbour or deleted may lose its id; if the id is present it must sit on an element containing the token's text"],
         t0,
-        rule="degenerate and textbook MathML with author-id policies none/some/all/duplicate: every Ok set_mathml result is checked for an id on every element, "
+        rule="degenerate and textbook MathML with author-id policies none/some/all/duplicate (ids with quotes, angle brackets, ampersands, blanks) and token-splitting idioms (point names after geometry "
+             "operators and under bars/arrows, chemical formulas, function names run together with arguments, roman numerals) with ids on every element: every Ok set_mathml result is checked for an id on every element, "
              "pairwise distinct ids, author ids staying on their token's text; second phase: random walks (every command name of navigate.rs incl. unset place markers, set_navigation_node with offsets inside "
              "multi-character leaves, key presses; 3 NavModes): ids returned by get_navigation_mathml_id / get_navigation_mathml, braille-position lookup and SSML/SAPI5 bookmarks "
              "must be ids of the returned MathML; third phase: returned MathML (with generated ids) is sent back inside a larger expression and all ids must again be distinct; non-trivial = inputs that carried author ids (phase 1) / walks whose ids were all checked (phase 2)",
